@@ -369,23 +369,25 @@ Proof.
   - intros c. apply rbind_np; [apply IH|discriminate].
 Qed.
 
-Lemma lz_samples_np : forall v44 strings fk bd sb ib, bounds_ok bd sb ->
-  lz_samples v44 strings fk sb ib <> RPanic.
+Lemma lz_samples_np : forall v44 strings fk hdr bd sb ib, bounds_ok bd sb ->
+  lz_samples v44 strings fk hdr sb ib <> RPanic.
 Proof.
-  intros v44 strings fk bd sb ib Hok. unfold lz_samples.
+  intros v44 strings fk hdr bd sb ib Hok. unfold lz_samples.
   rewrite (lz_sample_count_ok bd sb Hok). cbn [rbind].
   destruct (lz_format_count_ok bd sb Hok) as [b [_ Hf]]. rewrite Hf. cbn [rbind]. cbv zeta.
   destruct (lz_validate _ _ ib); [|discriminate].
+  destruct (too_many_samples hdr _); [discriminate|].
   destruct (lz_n_series _ _ ib) as [ss|]; [|discriminate].
   apply rbind_np; [apply lz_names_np|]. intros nms.
   apply rbind_np; [apply lz_columns_np|discriminate].
 Qed.
 
-(* (a) TOTALITY: read_record followed by try_from_variant_record never panics *)
-Theorem lazy_read_never_panics : forall v44 strings contigs ik fk bs,
-  lazy_read v44 strings contigs ik fk bs <> RPanic.
+(* (a) TOTALITY: read_record followed by try_from_variant_record never panics, whatever the header's
+   sample count (and without the sample-count check) *)
+Theorem lazy_read_gen_never_panics : forall v44 strings contigs ik fk hdr bs,
+  lazy_read_gen v44 strings contigs ik fk hdr bs <> RPanic.
 Proof.
-  intros v44 strings contigs ik fk bs. unfold lazy_read.
+  intros v44 strings contigs ik fk hdr bs. unfold lazy_read_gen.
   destruct (dec_frame bs) as [[[sb ib] rest]|]; [|discriminate].
   destruct (lz_index sb) as [bd| |] eqn:Ei; [|discriminate|exfalso; exact (lz_index_np sb Ei)].
   apply lz_index_ok in Ei. cbn [rbind].
@@ -397,10 +399,56 @@ Proof.
   apply rbind_np; [apply (lz_qual_np bd sb Ei)|]. intros qual.
   apply rbind_np; [apply (lz_filters_np bd sb Ei)|]. intros filters.
   apply rbind_np; [apply (lz_info_np bd sb Ei)|]. intros info.
-  apply rbind_np; [apply (lz_samples_np _ _ _ bd sb ib Ei)|]. intros kr.
+  apply rbind_np; [apply (lz_samples_np _ _ _ _ bd sb ib Ei)|]. intros kr.
   rewrite (lz_u16_ok bd sb Ei) by lia. cbn [rbind].
   destruct (lz_format_count_ok bd sb Ei) as [b [_ Hf]]. rewrite Hf. cbn [rbind].
   rewrite (lz_sample_count_ok bd sb Ei). cbn [rbind]. discriminate.
+Qed.
+
+Theorem lazy_read_hdr_never_panics : forall v44 strings contigs ik fk hs bs,
+  lazy_read_hdr v44 strings contigs ik fk hs bs <> RPanic.
+Proof. intros. apply lazy_read_gen_never_panics. Qed.
+
+Theorem lazy_read_never_panics : forall v44 strings contigs ik fk bs,
+  lazy_read v44 strings contigs ik fk bs <> RPanic.
+Proof. intros. apply lazy_read_gen_never_panics. Qed.
+
+(* the sample-count check is the only use of the header's names: it rejects, or changes nothing *)
+Lemma lz_samples_hdr : forall v44 strings fk hs sb ib,
+  lz_samples v44 strings fk (Some hs) sb ib = lz_samples v44 strings fk None sb ib \/
+  lz_samples v44 strings fk (Some hs) sb ib = RErr.
+Proof.
+  intros v44 strings fk hs sb ib. unfold lz_samples.
+  destruct (lz_sample_count sb) as [nsz| |]; try (left; reflexivity). cbn [rbind].
+  destruct (lz_format_count sb) as [nf| |]; try (left; reflexivity). cbn [rbind]. cbv zeta.
+  destruct (lz_validate _ _ ib); [|left; reflexivity].
+  cbn [too_many_samples]. destruct (hs <? nsz); [right|left]; reflexivity.
+Qed.
+
+Lemma lazy_read_hdr_or : forall v44 strings contigs ik fk hs bs,
+  lazy_read_hdr v44 strings contigs ik fk hs bs = lazy_read v44 strings contigs ik fk bs \/
+  lazy_read_hdr v44 strings contigs ik fk hs bs = RErr.
+Proof.
+  intros v44 strings contigs ik fk hs bs. unfold lazy_read_hdr, lazy_read, lazy_read_gen.
+  destruct (dec_frame bs) as [[[sb ib] rest]|]; [|left; reflexivity].
+  destruct (lz_index sb) as [bd| |]; try (left; reflexivity). cbn [rbind].
+  destruct (lz_chrom contigs sb); try (left; reflexivity). cbn [rbind].
+  destruct (lz_pos sb); try (left; reflexivity). cbn [rbind].
+  destruct (lz_ids bd sb); try (left; reflexivity). cbn [rbind].
+  destruct (lz_ref bd sb); try (left; reflexivity). cbn [rbind].
+  destruct (lz_alts bd sb); try (left; reflexivity). cbn [rbind].
+  destruct (lz_qual sb); try (left; reflexivity). cbn [rbind].
+  destruct (lz_filters strings bd sb); try (left; reflexivity). cbn [rbind].
+  destruct (lz_info strings ik bd sb); try (left; reflexivity). cbn [rbind].
+  destruct (lz_samples_hdr v44 strings fk hs sb ib) as [E|E]; rewrite E; [left|right]; reflexivity.
+Qed.
+
+(* a record accepted under a header is the record the conversion without the check returns *)
+Corollary lazy_read_hdr_enough : forall v44 strings contigs ik fk hs bs t,
+  lazy_read_hdr v44 strings contigs ik fk hs bs = ROk t -> lazy_read v44 strings contigs ik fk bs = ROk t.
+Proof.
+  intros v44 strings contigs ik fk hs bs t H.
+  destruct (lazy_read_hdr_or v44 strings contigs ik fk hs bs) as [E|E]; rewrite E in H; [exact H|discriminate].
 Qed.
 
 (* ---------------------------------------------------------------- the series of the block *)
